@@ -67,6 +67,7 @@ VARIANTS.update({
     "mixB": ["crossChain", "transferFromShares", "executeClaim"],
     "mixC": ["undelegateV2", "cancelSendToExternal", "withdraw"],
     "mixD": ["transferShares", "increaseBridgeFee", "redelegateV2"],
+    "mixE": ["crossChain", "bridgeCall", "cancelSendToExternal"],    # in-frame ERC-20 writes next to bridgeCall's conversion
 })
 MAXNAT, MAXEVM = 3, 2
 
@@ -195,9 +196,22 @@ TIERS = {
     "quick": (Q_SHAPES, ["delegateV2", "crossChain"], "sample"),
     "thorough": (T_SHAPES, sorted(VARIANTS), "all"),
 }
-# the scenario of the candidate finding (C08/C04, bridgeCall converts through a NESTED state DB): an
-# executor moves the token by a plain EVM call and by bridgeCall in one transaction
-SCENARIO_SHAPES = ["d12", "t08", "t12"]
+# Scenario of a known candidate finding (bridgeCall converts ERC-20 -> coin through keeper-level EVM calls
+# that commit a NESTED state DB while the calling transaction's own pending writes to the same token live
+# in the outer state DB): a transaction that writes the token's storage by in-frame EVM code (plain
+# transfer, or crossChain / cancelSendToExternal whose ERC-20 legs run in the calling EVM) AND calls
+# bridgeCall.  Those cases are checked in a separate pass (DESIGN section 4): the main pass must hold without
+# them; a violation in the scenario pass is printed as KNOWN-FINDING iff known_findings.json lists SCENARIO_ID.
+SCENARIO_ID = "C09-bridgecall-nested-statedb"
+INFRAME_TOKEN_WRITERS = {"crossChain", "cancelSendToExternal"}
+
+
+def in_scenario(case):
+    v = ALL_CASES[case]
+    ms = set(v["methods"])
+    if "bridgeCall" not in ms:
+        return False
+    return uses_evm(SHAPES[v["shape"]]) or bool(ms & INFRAME_TOKEN_WRITERS)
 
 
 def tier_cases(tier):
@@ -256,23 +270,66 @@ def profile(work, binary, ids, mode, shards):
     return classes, cuts_file, nl
 
 
+def known_scenario():
+    return any(SCENARIO_ID in (f if isinstance(f, str) else json.dumps(f)) for f in vlib.known_findings())
+
+
 def run_c09(work, args):
+    import io, contextlib
     tier = work.tier if work.tier in TIERS else "quick"
-    _, _, mode = TIERS[tier]
-    ids = tier_cases(tier)
     check_generated()
     if getattr(args, "replay", None):
         open(work.path("FramesCuts.tla"), "w").write(emit_cuts({}))
         return specs.replay_path(work, args.replay, pid="C09", module="Frames", pkg="frames", formulas=FORMULAS, reset_op=RESET)
+    ids = tier_cases(tier)
+    scen = [c for c in ids if in_scenario(c)]
+    main = [c for c in ids if not in_scenario(c)]
     binary = vlib.build(work, "frames")
+    rc = run_pass(work, args, binary, tier, main, "cases")
+    if rc != 0 or not scen:
+        return rc
+    ev_main = json.load(open(os.path.join(vlib.VERIF, "evidence", "C09.json")))
+    buf = io.StringIO()
+    with contextlib.redirect_stdout(buf):
+        try:
+            rc_s = run_pass(work, args, binary, tier, scen, "scenario")
+        except Infra as e:
+            rc_s, _ = 2, print("INFRASTRUCTURE (scenario pass):", e)
+    text = buf.getvalue()
+    ev_s = json.load(open(os.path.join(vlib.VERIF, "evidence", "C09.json"))) if rc_s in (0, 1) else {}
+    known = known_scenario()
+    summary = dict(scenario=SCENARIO_ID, cases=scen, rc=rc_s, listed_in_known_findings=known,
+                   replay=[l.split("replay=")[1].strip() for l in text.splitlines() if l.startswith("VIOLATION")],
+                   deviations=ev_s.get("coverage", {}).get("deviations_from_spec"))
+    ev_main["coverage"]["known_scenario_pass"] = summary
+    final = 0
+    for line in text.splitlines():
+        if line.startswith("VIOLATION") and known:
+            log("KNOWN-FINDING: property=C09 %s: %s" % (SCENARIO_ID, line[len("VIOLATION "):]))
+        else:
+            log("[scenario %s] %s" % (SCENARIO_ID, line) if not line.startswith("VIOLATION") else line)
+    if rc_s == 1 and not known:
+        final = 1
+    elif rc_s == 2:
+        final = 2
+    elif rc_s == 0:
+        log("scenario %s: not reproduced on this tree (%d cases conform)" % (SCENARIO_ID, len(scen)))
+    ev_main["violations"] = 1 if final == 1 else 0
+    ev_main["wall_s"] = round(time.time() - work.t0, 1)
+    json.dump(ev_main, open(os.path.join(vlib.VERIF, "evidence", "C09.json"), "w"), indent=1, sort_keys=True)
+    return final
+
+
+def run_pass(work, args, binary, tier, ids, name):
+    _, _, mode = TIERS[tier]
     shards = 14 if tier != "dev" else 4
     classes, cuts_file, nlimits = profile(work, binary, ids, mode, shards)
     open(work.path("FramesCuts.tla"), "w").write(emit_cuts(classes))
     # model check on one variant per shape (the model does not see the method), all 2^slots patterns
-    shapes = TIERS[tier][0]
-    mc_ids = [case_id(s, TIERS[tier][1][0]) for s in shapes]
-    mc = [dict(name="allpatterns", tiers=[tier], consts=consts(mc_ids), overrides={"Prog": "ProgData", "Cuts": "CutsAll"}, timeout=1200)]
-    gen = [dict(name="cases", tiers=[tier], consts=consts(ids), overrides={"Prog": "ProgData", "Cuts": "CutsData"},
+    shapes = sorted({ALL_CASES[c]["shape"] for c in ids})
+    mc_ids = [min(c for c in ids if ALL_CASES[c]["shape"] == s) for s in shapes]
+    mc = [dict(name=name + "-allpatterns", tiers=[tier], consts=consts(mc_ids), overrides={"Prog": "ProgData", "Cuts": "CutsAll"}, timeout=1200)]
+    gen = [dict(name=name, tiers=[tier], consts=consts(ids), overrides={"Prog": "ProgData", "Cuts": "CutsData"},
                 harness=[harness_const(ids, cuts_file, mode)], shards=shards, rej_sample=0, explore=0)]
     real_build = vlib.build
     vlib.build = lambda w, pkg: binary
